@@ -4,6 +4,7 @@ import QipVerif.Lemmas.QasmExportTop
 import QipVerif.Lemmas.QasmRoundtrip
 import QipVerif.Lemmas.QasmRoundtripDefs
 import QipVerif.Lemmas.QasmExportPad
+import QipVerif.Lemmas.QasmExportCv
 /-!
 # C10 — exported OpenQASM is valid OpenQASM 2.0 and denotes the same circuit
 
@@ -59,23 +60,23 @@ theorem export_valid_partial (c : Circuit) (hc : GoodCircuit c.out) :
 `QASMU`, `SQRTNOT`, controlled rotations, negative and large parameters (texts that are printed
 as they are, with or without `_qasm_real`) -/
 example : GoodCircuit (Circuit.out ⟨3, 0, [
-    .gate ⟨cs!"RX", some [0], none, .num ⟨false, cs!"0"⟩, none⟩,
+    .gate ⟨cs!"RX", some [0], none, .num ⟨false, cs!"0"⟩, none, none⟩,
     .gate ⟨cs!"QASMU", some [2], none, .seq cs!"tuple" cs!"(0.1, 0.2, 0.3)"
-      [⟨false, cs!"0.1"⟩, ⟨true, cs!"0.0"⟩, ⟨false, cs!"1.5e+20"⟩], none⟩,
-    .gate ⟨cs!"SQRTNOT", some [1], none, .none, some []⟩,
-    .gate ⟨cs!"CRX", some [1], some [2], .num ⟨true, cs!"3.141592653589793"⟩, none⟩,
-    .gate ⟨cs!"TOFFOLI", some [0], some [2, 1], .none, none⟩]⟩) := by
+      [⟨false, cs!"0.1"⟩, ⟨true, cs!"0.0"⟩, ⟨false, cs!"1.5e+20"⟩], none, none⟩,
+    .gate ⟨cs!"SQRTNOT", some [1], none, .none, some [], none⟩,
+    .gate ⟨cs!"CRX", some [1], some [2], .num ⟨true, cs!"3.141592653589793"⟩, none, none⟩,
+    .gate ⟨cs!"TOFFOLI", some [0], some [2, 1], .none, none, none⟩]⟩) := by
   rw [show Circuit.out _ = (⟨3, 0, [
-    .gate ⟨cs!"RX", some [0], none, .num ⟨false, cs!"0"⟩, none⟩,
+    .gate ⟨cs!"RX", some [0], none, .num ⟨false, cs!"0"⟩, none, none⟩,
     .gate ⟨cs!"QASMU", some [2], none, .seq cs!"tuple" cs!"(0.1, 0.2, 0.3)"
-      [⟨false, cs!"0.1"⟩, ⟨true, cs!"0.0"⟩, ⟨false, cs!"1.5e+20"⟩], none⟩,
-    .gate ⟨cs!"SQRTNOT", some [1], none, .none, some []⟩,
-    .gate ⟨cs!"CRX", some [1], some [2], .num ⟨true, cs!"3.141592653589793"⟩, none⟩,
-    .gate ⟨cs!"TOFFOLI", some [0], some [2, 1], .none, none⟩]⟩ : Circuit) from by decide]
+      [⟨false, cs!"0.1"⟩, ⟨true, cs!"0.0"⟩, ⟨false, cs!"1.5e+20"⟩], none, none⟩,
+    .gate ⟨cs!"SQRTNOT", some [1], none, .none, some [], none⟩,
+    .gate ⟨cs!"CRX", some [1], some [2], .num ⟨true, cs!"3.141592653589793"⟩, none, none⟩,
+    .gate ⟨cs!"TOFFOLI", some [0], some [2, 1], .none, none, none⟩]⟩ : Circuit) from by decide]
   intro op hop
   simp only [List.mem_cons, List.not_mem_nil, or_false] at hop
   rcases hop with rfl | rfl | rfl | rfl | rfl <;>
-    exact ⟨_, rfl, ⟨by decide, by decide, by decide, by decide, by decide, by decide, by decide⟩⟩
+    exact ⟨_, rfl, ⟨by decide, by decide, by decide, by decide, by decide, by decide, by decide, by decide⟩⟩
 
 /-- **Validity of the exported text for every number Python prints (source with `_qasm_real`;
 partial: gates only).**  If `_qasm_str` prints its parameters with `_qasm_real`
@@ -96,15 +97,15 @@ theorem export_valid_pynum_partial (hfix : Gen.exportPadsExponent = true) (c : C
 /-- the class of `export_valid_pynum_partial` contains the parameters the old exporter printed as
 invalid text: `1e-20`, `-5e-324`, `1e+20` inside a tuple -/
 example : PyCircuit ⟨3, 0, [
-    .gate ⟨cs!"RX", some [0], none, .num ⟨false, cs!"1e-20"⟩, none⟩,
+    .gate ⟨cs!"RX", some [0], none, .num ⟨false, cs!"1e-20"⟩, none, none⟩,
     .gate ⟨cs!"QASMU", some [2], none, .seq cs!"tuple" cs!"(1e+20, -0.0, 1.5e-07)"
-      [⟨false, cs!"1e+20"⟩, ⟨true, cs!"0.0"⟩, ⟨false, cs!"1.5e-07"⟩], none⟩,
-    .gate ⟨cs!"CRY", some [1], some [2], .num ⟨true, cs!"5e-324"⟩, none⟩,
-    .gate ⟨cs!"RZ", some [1], none, .num ⟨false, cs!"3"⟩, none⟩]⟩ := by
+      [⟨false, cs!"1e+20"⟩, ⟨true, cs!"0.0"⟩, ⟨false, cs!"1.5e-07"⟩], none, none⟩,
+    .gate ⟨cs!"CRY", some [1], some [2], .num ⟨true, cs!"5e-324"⟩, none, none⟩,
+    .gate ⟨cs!"RZ", some [1], none, .num ⟨false, cs!"3"⟩, none, none⟩]⟩ := by
   intro op hop
   simp only [List.mem_cons, List.not_mem_nil, or_false] at hop
   rcases hop with rfl | rfl | rfl | rfl <;>
-    exact ⟨_, rfl, ⟨by decide, by decide, by decide, by decide, by decide, by decide, by decide⟩⟩
+    exact ⟨_, rfl, ⟨by decide, by decide, by decide, by decide, by decide, by decide, by decide, by decide⟩⟩
 
 /-- … and the unitary of that text is the circuit's (`export_den` under the same hypotheses) -/
 theorem export_den_pynum_partial (hfix : Gen.exportPadsExponent = true) (c : Circuit) (hc : PyCircuit c) :
@@ -123,13 +124,13 @@ theorem export_refuses (c : Circuit) (g : Export.Gate) (hg : Op.gate g ∈ c.ops
     (List.mem_map.mpr ⟨_, hg, rfl⟩) hb hd
   exact ⟨e, by simp [exportCircuit, exportCore, he]⟩
 
-example : ∃ e, exportCircuit ⟨2, 0, [.gate ⟨cs!"X", some [0], none, .none, none⟩,
-    .gate ⟨cs!"ISWAP", some [0, 1], none, .none, none⟩]⟩ = .error e :=
-  export_refuses _ ⟨cs!"ISWAP", some [0, 1], none, .none, none⟩ (by simp) (by decide) (by decide)
+example : ∃ e, exportCircuit ⟨2, 0, [.gate ⟨cs!"X", some [0], none, .none, none, none⟩,
+    .gate ⟨cs!"ISWAP", some [0, 1], none, .none, none, none⟩]⟩ = .error e :=
+  export_refuses _ ⟨cs!"ISWAP", some [0, 1], none, .none, none, none⟩ (by simp) (by decide) (by decide)
 
 /-- A classically controlled gate is refused as well. -/
 theorem export_refuses_classical :
-    exportCircuit ⟨1, 1, [.gate ⟨cs!"X", some [0], none, .none, some [0]⟩]⟩ = .error .notImpl := by decide
+    exportCircuit ⟨1, 1, [.gate ⟨cs!"X", some [0], none, .none, some [0], none⟩]⟩ = .error .notImpl := by decide
 
 /-! ### The auxiliary gate definitions the exporter emits -/
 
@@ -233,21 +234,21 @@ theorem roundtrip_den_partial (c : Circuit) (hc : GoodCircuit c.out) (hN : 0 < c
 /-- the hypotheses of `roundtrip_den_partial` are satisfiable -/
 example : ∃ c : Circuit, GoodCircuit c.out ∧ 0 < c.N ∧ addedNames c.ops Gen.gateNameToQasm = [] :=
   ⟨⟨3, 0, [
-    .gate ⟨cs!"RX", some [0], none, .num ⟨false, cs!"0.25"⟩, none⟩,
+    .gate ⟨cs!"RX", some [0], none, .num ⟨false, cs!"0.25"⟩, none, none⟩,
     .gate ⟨cs!"QASMU", some [2], none, .seq cs!"tuple" cs!"(0.1, 0.2, 0.3)"
-      [⟨false, cs!"0.1"⟩, ⟨true, cs!"0.0"⟩, ⟨false, cs!"1.5e+20"⟩], none⟩,
-    .gate ⟨cs!"CRZ", some [1], some [2], .num ⟨true, cs!"3.141592653589793"⟩, none⟩,
-    .gate ⟨cs!"TOFFOLI", some [0], some [2, 1], .none, none⟩]⟩, by
+      [⟨false, cs!"0.1"⟩, ⟨true, cs!"0.0"⟩, ⟨false, cs!"1.5e+20"⟩], none, none⟩,
+    .gate ⟨cs!"CRZ", some [1], some [2], .num ⟨true, cs!"3.141592653589793"⟩, none, none⟩,
+    .gate ⟨cs!"TOFFOLI", some [0], some [2, 1], .none, none, none⟩]⟩, by
     rw [show Circuit.out _ = (⟨3, 0, [
-      .gate ⟨cs!"RX", some [0], none, .num ⟨false, cs!"0.25"⟩, none⟩,
+      .gate ⟨cs!"RX", some [0], none, .num ⟨false, cs!"0.25"⟩, none, none⟩,
       .gate ⟨cs!"QASMU", some [2], none, .seq cs!"tuple" cs!"(0.1, 0.2, 0.3)"
-        [⟨false, cs!"0.1"⟩, ⟨true, cs!"0.0"⟩, ⟨false, cs!"1.5e+20"⟩], none⟩,
-      .gate ⟨cs!"CRZ", some [1], some [2], .num ⟨true, cs!"3.141592653589793"⟩, none⟩,
-      .gate ⟨cs!"TOFFOLI", some [0], some [2, 1], .none, none⟩]⟩ : Circuit) from by decide]
+        [⟨false, cs!"0.1"⟩, ⟨true, cs!"0.0"⟩, ⟨false, cs!"1.5e+20"⟩], none, none⟩,
+      .gate ⟨cs!"CRZ", some [1], some [2], .num ⟨true, cs!"3.141592653589793"⟩, none, none⟩,
+      .gate ⟨cs!"TOFFOLI", some [0], some [2, 1], .none, none, none⟩]⟩ : Circuit) from by decide]
     intro op hop
     simp only [List.mem_cons, List.not_mem_nil, or_false] at hop
     rcases hop with rfl | rfl | rfl | rfl <;>
-      exact ⟨_, rfl, ⟨by decide, by decide, by decide, by decide, by decide, by decide, by decide⟩⟩,
+      exact ⟨_, rfl, ⟨by decide, by decide, by decide, by decide, by decide, by decide, by decide, by decide⟩⟩,
     by decide, by decide⟩
 
 /-- **Export, then import: the same unitary — every circuit of the class, emitted definitions included.**
@@ -273,18 +274,18 @@ exponent-form parameter, a gate used twice -/
 example : ∃ c : Circuit, GoodCircuit c ∧ 0 < c.N ∧
     addedNames c.ops Gen.gateNameToQasm = [cs!"SWAP", cs!"CRX", cs!"SQRTNOT", cs!"CS", cs!"CT", cs!"CRY"] :=
   ⟨⟨3, 0, [
-    .gate ⟨cs!"SWAP", some [0, 2], none, .none, none⟩,
-    .gate ⟨cs!"CRX", some [1], some [2], .num ⟨true, cs!"0.25"⟩, none⟩,
-    .gate ⟨cs!"SQRTNOT", some [1], none, .none, none⟩,
-    .gate ⟨cs!"CS", some [0], some [1], .none, none⟩,
-    .gate ⟨cs!"CT", some [2], some [0], .none, none⟩,
-    .gate ⟨cs!"CRY", some [0], some [1], .num ⟨false, cs!"1.5e+20"⟩, none⟩,
-    .gate ⟨cs!"CRX", some [1], some [2], .num ⟨true, cs!"0.25"⟩, none⟩,
-    .gate ⟨cs!"CNOT", some [0], some [2], .none, none⟩]⟩, by
+    .gate ⟨cs!"SWAP", some [0, 2], none, .none, none, none⟩,
+    .gate ⟨cs!"CRX", some [1], some [2], .num ⟨true, cs!"0.25"⟩, none, none⟩,
+    .gate ⟨cs!"SQRTNOT", some [1], none, .none, none, none⟩,
+    .gate ⟨cs!"CS", some [0], some [1], .none, none, none⟩,
+    .gate ⟨cs!"CT", some [2], some [0], .none, none, none⟩,
+    .gate ⟨cs!"CRY", some [0], some [1], .num ⟨false, cs!"1.5e+20"⟩, none, none⟩,
+    .gate ⟨cs!"CRX", some [1], some [2], .num ⟨true, cs!"0.25"⟩, none, none⟩,
+    .gate ⟨cs!"CNOT", some [0], some [2], .none, none, none⟩]⟩, by
     intro op hop
     simp only [List.mem_cons, List.not_mem_nil, or_false] at hop
     rcases hop with rfl | rfl | rfl | rfl | rfl | rfl | rfl | rfl <;>
-      exact ⟨_, rfl, ⟨by decide, by decide, by decide, by decide, by decide, by decide, by decide⟩⟩,
+      exact ⟨_, rfl, ⟨by decide, by decide, by decide, by decide, by decide, by decide, by decide, by decide⟩⟩,
     by decide, by decide⟩
 
 /-! ### Counter-examples to the unrestricted statement (recorded findings) -/
@@ -293,7 +294,7 @@ example : ∃ c : Circuit, GoodCircuit c ∧ 0 < c.N ∧
 `QubitCircuit._gate_CSIGN`, which does not exist — the export CRASHES (AttributeError); it neither exports the gate
 nor refuses it.  (On a tree with fix C10-4 the hypothesis is false; see `export_csign_repaired`.) -/
 theorem export_csign_counterexample : lookup Gen.gateNameToQasm cs!"CSIGN" = none →
-    exportCircuit ⟨2, 0, [.gate ⟨cs!"CSIGN", some [0], some [1], .none, none⟩]⟩ = .error .attr := by
+    exportCircuit ⟨2, 0, [.gate ⟨cs!"CSIGN", some [0], some [1], .none, none, none⟩]⟩ = .error .attr := by
   first
     | exact fun h => absurd h (by decide)
     | exact fun _ => rfl
@@ -302,8 +303,8 @@ theorem export_csign_counterexample : lookup Gen.gateNameToQasm cs!"CSIGN" = non
 gate `cz control,target`, and the text is accepted by the strict recogniser. -/
 theorem export_csign_repaired : lookup Gen.gateNameToQasm cs!"CSIGN" = some cs!"cz" →
     lookup Gen.gateNameToQasm cs!"CZ" = some cs!"cz" →
-    ∃ lines, exportCircuit ⟨2, 0, [.gate ⟨cs!"CSIGN", some [0], some [1], .none, none⟩,
-        .gate ⟨cs!"CZ", some [1], some [0], .none, none⟩]⟩ = .ok lines ∧
+    ∃ lines, exportCircuit ⟨2, 0, [.gate ⟨cs!"CSIGN", some [0], some [1], .none, none, none⟩,
+        .gate ⟨cs!"CZ", some [1], some [0], .none, none, none⟩]⟩ = .ok lines ∧
       cs!"cz q[1],q[0];" ∈ lines ∧ cs!"cz q[0],q[1];" ∈ lines ∧ acceptProgram lines = true := by
   first
     | exact fun h => absurd h (by decide)
@@ -313,14 +314,86 @@ theorem export_csign_repaired : lookup Gen.gateNameToQasm cs!"CSIGN" = some cs!"
 (`exportShape` = the base rows + the rows the regenerated name table writes as `cz`): the exported `cz` call has the
 circuit's unitary, and the importer reads it back as the library gate `CZ` -/
 example : lookup Gen.gateNameToQasm cs!"CSIGN" = some cs!"cz" → lookup Gen.gateNameToQasm cs!"CZ" = some cs!"cz" →
-    GoodCircuit ⟨2, 0, [.gate ⟨cs!"CSIGN", some [0], some [1], .none, none⟩,
-      .gate ⟨cs!"CZ", some [1], some [0], .none, none⟩]⟩ := by
+    GoodCircuit ⟨2, 0, [.gate ⟨cs!"CSIGN", some [0], some [1], .none, none, none⟩,
+      .gate ⟨cs!"CZ", some [1], some [0], .none, none, none⟩]⟩ := by
   first
     | exact fun h => absurd h (by decide)
     | (intro _ _ op hop
        simp only [List.mem_cons, List.not_mem_nil, or_false] at hop
        rcases hop with rfl | rfl <;>
-         exact ⟨_, rfl, ⟨by decide, by decide, by decide, by decide, by decide, by decide, by decide⟩⟩)
+         exact ⟨_, rfl, ⟨by decide, by decide, by decide, by decide, by decide, by decide, by decide, by decide⟩⟩)
+
+/-! ### What the exporter reads of a gate object: not its `control_value` (finding C10-7)
+
+The model's `Export.Gate` has the six fields `Gate._to_qasm` / `_qasm_str` read: `name`, `targets`, `controls`,
+`arg_value`, `classical_controls` and `control_value`.  The class of the object and its `target_gate` are never read:
+the QASM gate is chosen by the name alone. -/
+
+/-- **`control_value` is read only to refuse.**  If every gate has no `control_value` or "all control qubits 1" — or on
+a tree whose `Gate._to_qasm` has no such test at all — the export is the export of the circuit with every
+`control_value` removed. -/
+theorem export_ignores_control_value (c : Circuit)
+    (h : (∀ g, Op.gate g ∈ c.ops → cvOk g = true) ∨ Gen.exportChecksCv = false) :
+    exportCircuit c.dropCv = exportCircuit c := by
+  have h' : (∀ g, Op.gate g ∈ c.out.ops → cvOk g = true) ∨ Gen.exportChecksCv = false := by
+    rcases h with h | h
+    · refine Or.inl fun g hg => ?_
+      obtain ⟨op, hop, he⟩ := List.mem_map.mp hg
+      cases op with
+      | meas ts st => cases he
+      | gate g0 =>
+        simp only [Op.out, Op.gate.injEq] at he
+        subst he
+        exact h g0 hop
+    · exact Or.inr h
+  unfold exportCircuit
+  rw [dropCv_out_circuit, exportCore_dropCv _ h']
+
+example : exportCircuit (Circuit.dropCv ⟨2, 0, [.gate ⟨cs!"CRZ", some [1], some [0], .num ⟨false, cs!"0.7"⟩, none, some 1⟩]⟩) =
+    exportCircuit ⟨2, 0, [.gate ⟨cs!"CRZ", some [1], some [0], .num ⟨false, cs!"0.7"⟩, none, some 1⟩]⟩ :=
+  export_ignores_control_value _ (Or.inl (by
+    intro g hg
+    simp only [List.mem_cons, Op.gate.injEq, List.not_mem_nil, or_false] at hg
+    subst hg
+    decide))
+
+/-- **Refusal of another control value** (tree with fix C10-7): a circuit containing a gate whose `control_value` is
+not "all control qubits 1" is not exported. -/
+theorem export_refuses_control_value (hfix : Gen.exportChecksCv = true) (c : Circuit) (g : Export.Gate)
+    (hg : Op.gate g ∈ c.ops) (hcv : cvOk g = false) : ∃ e, exportCircuit c = .error e := by
+  have hg' : Op.gate g.out ∈ c.out.ops := List.mem_map.mpr ⟨_, hg, rfl⟩
+  simp only [exportCircuit, exportCore]
+  cases defsLoop c.out.ops Gen.gateNameToQasm with
+  | error e => exact ⟨e, rfl⟩
+  | ok r =>
+    obtain ⟨m, defs⟩ := r
+    obtain ⟨e, he⟩ := opsLoop_refuses_cv hfix c.out.ops m g.out hg' (by rw [cvOk_out]; exact hcv)
+    exact ⟨e, by simp [he]⟩
+
+/-- On a tree without that test, a gate NAMED `CRZ` that acts when its control qubit is 0 (an object the library gives
+the matrix |0><0| ⊗ RZ + |1><1| ⊗ 1: `ControlledGate(controls=[0], targets=[1], control_value=0, target_gate=RZ,
+arg_value=0.7, name="CRZ")`) is exported as `crz(0.7) q[0],q[1];` — the text of the gate controlled on 1. -/
+theorem export_control_value_counterexample : Gen.exportChecksCv = false →
+    ∃ lines, exportCircuit ⟨2, 0, [.gate ⟨cs!"CRZ", some [1], some [0], .num ⟨false, cs!"0.7"⟩, none, some 0⟩]⟩ = .ok lines ∧
+      exportCircuit ⟨2, 0, [.gate ⟨cs!"CRZ", some [1], some [0], .num ⟨false, cs!"0.7"⟩, none, some 1⟩]⟩ = .ok lines ∧
+      cs!"crz(0.7) q[0],q[1];" ∈ lines := by
+  first
+    | exact fun h => absurd h (by decide)
+    | exact fun _ => ⟨_, rfl, by decide, by decide⟩
+
+/-- On a tree with the test the same object is refused (also `TOFFOLI` with `control_value=1` on two controls and a
+gate without controls that carries a `control_value`); `control_value=1` on one control is exported as before. -/
+theorem export_control_value_repaired : Gen.exportChecksCv = true →
+    exportCircuit ⟨2, 0, [.gate ⟨cs!"CRZ", some [1], some [0], .num ⟨false, cs!"0.7"⟩, none, some 0⟩]⟩ = .error .notImpl ∧
+    exportCircuit ⟨3, 0, [.gate ⟨cs!"TOFFOLI", some [2], some [0, 1], .none, none, some 1⟩]⟩ = .error .notImpl ∧
+    exportCircuit ⟨1, 0, [.gate ⟨cs!"X", some [0], none, .none, none, some 0⟩]⟩ = .error .notImpl ∧
+    (∃ lines, exportCircuit ⟨2, 0, [.gate ⟨cs!"CRZ", some [1], some [0], .num ⟨false, cs!"0.7"⟩, none, some 1⟩]⟩ = .ok lines ∧
+      cs!"crz(0.7) q[0],q[1];" ∈ lines) ∧
+    (∃ lines, exportCircuit ⟨3, 0, [.gate ⟨cs!"TOFFOLI", some [2], some [0, 1], .none, none, some 3⟩]⟩ = .ok lines ∧
+      cs!"ccx q[0],q[1],q[2];" ∈ lines) := by
+  first
+    | exact fun h => absurd h (by decide)
+    | exact fun _ => ⟨by decide, by decide, by decide, ⟨_, rfl, by decide⟩, ⟨_, rfl, by decide⟩⟩
 
 /-- what `cz` means: the standard's expansion of `qelib1.inc`'s `cz` is the controlled-Z matrix up to one phase
 (control = first qubit) — the documented matrix of the library gates `CZ` / `CSIGN` (`compactC .CZ`) -/
@@ -346,7 +419,7 @@ is not a `real` of the standard's grammar (a decimal point is mandatory); the te
 rejected.  (On a tree with `_qasm_real` the hypothesis is false and the statement is empty; see
 `export_exponent_repaired`.) -/
 theorem export_exponent_counterexample : Gen.exportPadsExponent = false →
-    ∃ lines, exportCircuit ⟨1, 0, [.gate ⟨cs!"RX", some [0], none, .num ⟨false, cs!"1e-20"⟩, none⟩]⟩ = .ok lines ∧
+    ∃ lines, exportCircuit ⟨1, 0, [.gate ⟨cs!"RX", some [0], none, .num ⟨false, cs!"1e-20"⟩, none, none⟩]⟩ = .ok lines ∧
       cs!"rx(1e-20) q[0];" ∈ lines ∧ isNumToken cs!"1e-20" = false ∧ acceptProgram lines = false := by
   intro h
   rw [exportCircuit, Circuit.out_eq_self h]
@@ -356,11 +429,11 @@ theorem export_exponent_counterexample : Gen.exportPadsExponent = false →
 standard, and the whole text is accepted.  (On a tree without `_qasm_real` the hypothesis is false;
 see `export_exponent_counterexample`.) -/
 theorem export_exponent_repaired : Gen.exportPadsExponent = true →
-    ∃ lines, exportCircuit ⟨1, 0, [.gate ⟨cs!"RX", some [0], none, .num ⟨false, cs!"1e-20"⟩, none⟩]⟩ = .ok lines ∧
+    ∃ lines, exportCircuit ⟨1, 0, [.gate ⟨cs!"RX", some [0], none, .num ⟨false, cs!"1e-20"⟩, none, none⟩]⟩ = .ok lines ∧
       cs!"rx(1.0e-20) q[0];" ∈ lines ∧ isNumToken cs!"1.0e-20" = true ∧ acceptProgram lines = true := by
   intro h
-  have e : Circuit.out ⟨1, 0, [.gate ⟨cs!"RX", some [0], none, .num ⟨false, cs!"1e-20"⟩, none⟩]⟩ =
-      ⟨1, 0, [.gate ⟨cs!"RX", some [0], none, .num ⟨false, padExp cs!"1e-20"⟩, none⟩]⟩ := by
+  have e : Circuit.out ⟨1, 0, [.gate ⟨cs!"RX", some [0], none, .num ⟨false, cs!"1e-20"⟩, none, none⟩]⟩ =
+      ⟨1, 0, [.gate ⟨cs!"RX", some [0], none, .num ⟨false, padExp cs!"1e-20"⟩, none, none⟩]⟩ := by
     simp [Circuit.out, Op.out, Gate.out, ArgVal.out, Num.out, h]
   rw [exportCircuit, e]
   exact ⟨_, rfl, by decide, by decide, by decide⟩
